@@ -509,6 +509,12 @@ fn main() {
                 // execute a program and evaluate every main transition constraint of the real AIR
                 // on every non-exempt row pair of the real trace
                 let mut asm = Assembler::default();
+                if let Some(k) = job["kernel"].as_str() {
+                    asm = match asm.with_kernel(k) {
+                        Ok(a) => a,
+                        Err(e) => { out.push(json!({"status":"assembly_error","error": format!("kernel: {e:?}")})); continue; }
+                    };
+                }
                 if job["stdlib"].as_bool().unwrap_or(false) {
                     asm = asm.with_library(&miden_stdlib::StdLibrary::default()).unwrap();
                 }
